@@ -1319,6 +1319,98 @@ def fd_variants_stream(ctx, reps):
             ctx.disagree(desc, cl(R.flat())[:600], ans[:600])
 
 
+def inner_plans(ctx, reps):
+    rng = ctx.rng
+    for nd, bdry, cplx in itertools.product((1, 2, 3, 4), (False, True), (False, True)):
+        for rep in range(reps):
+            shape = tuple(rng.choice([2, 3, 4, 5] if nd <= 2 else [2, 3, 3, 4]) for _ in range(nd))
+            sides = tuple(rng.choice([1.0, 0.5, 2.0, 0.25]) for _ in range(nd))
+            axis = rng.randrange(nd)
+            pads = [q for q in PADS if shape[axis] >= REF_NMIN.get(q, 2)]
+            yield dict(kind='inner', ndim=nd, shape=shape, sides=sides, cplx=cplx,
+                       sv='bdry' if bdry else rng.choice(['plain', 'shifted']), axis=axis,
+                       method=rng.choice(METHODS), pad=rng.choice(pads),
+                       vseed=rng.getrandbits(32))
+
+
+def ref_inner(shape, sides, bdry, X, Y):
+    """ORACLE, independent of the model: sum of cell volume * x * conj(y), the cell of a grid
+    point being halved along every axis on which the point is the first or the last one when
+    nodes_on_bdry (grid points on the boundary of the domain)."""
+    acc = Z
+    for idx in np.ndindex(*shape):
+        w = Fraction(1)
+        for a, k in enumerate(idx):
+            h = Fraction(sides[a])
+            w *= h / 2 if (bdry and k in (0, shape[a] - 1)) else h
+        acc = add(acc, scal(w, cmul(X.v[idx], conj(Y.v[idx]))))
+    return acc
+
+
+def run_inner_case(pl):
+    """-> (driver line or None, exact value of the real inner or None, problems)"""
+    import random
+    r = random.Random(pl['vseed'])
+    shape, sides, cplx, bdry = pl['shape'], pl['sides'], pl['cplx'], pl['sv'] == 'bdry'
+    problems = []
+    try:
+        space, _ = make_space(pl)
+        if tuple(float(v) for v in space.cell_sides) != tuple(sides):
+            return None, None, ['generator: cell sides {} instead of the planned {}'.format(
+                tuple(space.cell_sides), sides)]
+        xa, ya = rand_int_array(r, shape, cplx), rand_int_array(r, shape, cplx)
+        x, y = space.element(xa), space.element(ya)
+        val = cval(complex(x.inner(y)))
+    except Exception as e:  # noqa
+        return None, None, ['uniform_discr / inner raised {!r}'.format(e)]
+    X, Y = XArr.of(xa), XArr.of(ya)
+    want = ref_inner(shape, sides, bdry, X, Y)
+    if val != want:
+        problems.append('x.inner(y) = {} but sum of cell volume * x * conj(y) = {} for x={}, y={}'
+                        .format(cs(val), cs(want), cl(X.flat()), cl(Y.flat())))
+    if not bdry:
+        # the property's oracle, with the REAL inner product: <A x, y> == <x, A^* y> on a
+        # uniformly weighted space (not claimed for nodes_on_bdry: F60)
+        try:
+            import odl
+            op = odl.PartialDerivative(space, pl['axis'], method=pl['method'],
+                                       pad_mode=pl['pad'])
+            lhs = cval(complex(op(x).inner(y)))
+            rhs = cval(complex(x.inner(op.adjoint(y))))
+            if lhs != rhs:
+                problems.append('<A x, y> = {} but <x, A^* y> = {} in the inner product of the '
+                                'space, A = PartialDerivative(axis={}, {}, {}), x={}, y={}'.format(
+                                    cs(lhs), cs(rhs), pl['axis'], pl['method'], pl['pad'],
+                                    cl(X.flat()), cl(Y.flat())))
+        except Exception as e:  # noqa
+            problems.append('PartialDerivative / adjoint / inner raised {!r}'.format(e))
+    line = 'inner ndim={} shape={} dx={} bdry={} x={} y={}'.format(
+        len(shape), ','.join(str(n) for n in shape), ','.join(fs(v) for v in sides),
+        int(bdry), cl(X.flat()), cl(Y.flat()))
+    return line, val, problems
+
+
+def inner_stream(ctx, reps):
+    """ROUND 4: the executed model `innerN` of DiscretizedSpace.inner against the real spaces."""
+    todo = []
+    for pl in inner_plans(ctx, reps):
+        line, val, problems = run_inner_case(pl)
+        desc = {k: (str(v) if k in ('shape', 'sides') else v) for k, v in pl.items()}
+        key = 'inner uniform_discr shape={} cell_sides={} dtype={} nodes_on_bdry={}'.format(
+            pl['shape'], pl['sides'], 'complex' if pl['cplx'] else 'float', pl['sv'] == 'bdry')
+        ctx.case(('inner', pl['ndim'], pl['sv'] == 'bdry', pl['cplx']) if val not in (None, Z)
+                 else None, sample=desc if len(ctx.samples) < 14 else None)
+        ctx.hit('inner/bdry={}/ndim={}'.format(int(pl['sv'] == 'bdry'), pl['ndim']))
+        for pr in problems[:2]:
+            ctx.violation(key, pr, desc)
+        if line is not None:
+            todo.append((desc, line, val))
+    outs = core.run_driver('C13', [t[1] for t in todo])
+    for (desc, line, val), ans in zip(todo, outs):
+        if ans != 'ok r=' + cs(val):
+            ctx.disagree(desc, 'ok r=' + cs(val), ans)
+
+
 def regenerate(ctx):
     changed, partial, sources = extract_fd.regenerate()
     ctx.extra['table_sources'] = sources
@@ -1394,6 +1486,7 @@ def run(ctx):
     fd_variants_stream(ctx, 4 if ctx.quick else 30)
     ops_stream(ctx, 1 if ctx.quick else 12)
     ops_stream(ctx, 1 if ctx.quick else 4, ndn=True)
+    inner_stream(ctx, 3 if ctx.quick else 20)
     ops_matrix_stream(ctx, [(2,), (3,), (2, 3), (2, 2, 2)] if ctx.quick else
                       [(2,), (3,), (4,), (5,), (2, 2), (2, 3), (3, 2), (3, 4), (2, 2, 2),
                        (2, 3, 2), (3, 2, 3)])
@@ -1411,6 +1504,7 @@ EXPECTED_BRANCHES = sorted(
     {'opn/ndim={}/{}'.format(d, k) for d in NDN_DIMS for k in KINDS} |
     {'opn/ndim>=4/' + p for p in PADS} |
     {'cfgg/{}/{}'.format(a, k) for a in ('adjoint', 'derivative') for k in KINDS} |
+    {'inner/bdry={}/ndim={}'.format(b, d) for b in (0, 1) for d in (1, 2, 3, 4)} |
     {stratum_of(k) for k in KINDS} |
     {'opt/{}-explicit:{}'.format('domain' if k == 'div' else 'range', o)
      for k in KINDS for o in X_OPTIONS[k]})
@@ -1427,6 +1521,7 @@ def search(ctx, broken):
     ops_explicit_stream(ctx, [(2,), (3,), (4,), (2, 3), (3, 2), (2, 2, 3)], True)
     ops_stream(ctx, 8)
     ops_stream(ctx, 3, ndn=True)
+    inner_stream(ctx, 10)
     ops_matrix_stream(ctx, [(2,), (3,), (4,), (6,), (2, 2), (3, 3), (2, 4), (2, 2, 3)])
 
 
@@ -1459,6 +1554,12 @@ def replay(ctx, case):
                 and v['replay'].get('axis') == case['axis']
                 and v['replay'].get('cplx', False) == case.get('cplx', False)]
         return hits[0]['what'] if hits else None
+    if kind == 'inner':
+        pl = dict(case)
+        pl['shape'] = tuple(_ast.literal_eval(case['shape']))
+        pl['sides'] = tuple(_ast.literal_eval(case['sides']))
+        problems = run_inner_case(pl)[2]
+        return '; '.join(problems)[:800] if problems else None
     if kind == 'variant':
         pl = dict(case)
         pl['shape'] = tuple(_ast.literal_eval(case['shape']))
